@@ -93,6 +93,8 @@ func Corpus() []NamedCase {
 			hdr("C", 3, false, reqFields), data("C", 3, 50, false),
 			hdr("C", 3, true, []Field{{N: "x-t", V: "3"}, {N: "x-big", V: "c", R: []int{77, 40000}}}),
 			settings("S", 4, 100000), ack("C")}, true},
+		{"big-frames-both-directions", []Op{settings("C", 5, 65536), settings("S", 5, 65536), ack("S"), ack("C"),
+			hdr("C", 1, false, reqFields), data("C", 1, 40000, true), hdr("S", 1, false, respFields), data("S", 1, 50000, true)}, true},
 		{"window-blocking", []Op{settings("S", 4, 10), ack("C"), hdr("C", 1, false, reqFields), data("C", 1, 25, true),
 			winupd("S", 1, 5), winupd("S", 1, 10), winupd("S", 0, 1)}, true},
 	}...)
